@@ -85,7 +85,7 @@ package server
 //@     invariant none: forall(k, 0, idx__, t.Listeners[k].Name != Name)
 
 //@ func (t *Teamserver) ListenerStart(ListenerType int, info any) (err error)
-//@   requires nonnil: t != nil && noNilListeners(t)
+//@   requires nonnil: t != nil && noNilListeners(t) && forall(i, 0, len(t.Endpoints), t.Endpoints[i] != nil)
 //@   requires kind: (ListenerType == handlers.LISTENER_HTTP && typeis(info, handlers.HTTPConfig)) || (ListenerType == handlers.LISTENER_PIVOT_SMB && typeis(info, handlers.SMBConfig)) || (ListenerType == handlers.LISTENER_EXTERNAL && typeis(info, handlers.ExternalConfig))
 //@   modifies t.Listeners, t.Listeners[len(t.Listeners)], t.Endpoints, t.Endpoints[len(t.Endpoints)]
 //@   ensures unique: err == nil ==> forall(i, 0, old(len(t.Listeners)), old(t.Listeners)[i].Name != lnameOf(ListenerType, info))
@@ -108,3 +108,7 @@ package server
 //@   requires nonnil: t != nil && noNilListeners(t) && t.DB != nil && allunlocked("Havoc/cmd/server.Client", "Mutex")
 //@   modifies *
 //@   guard-store persisted: "Teamserver\.Listeners.*" lastresult(ListenerRemove) == nil
+
+//@ func (t *Teamserver) EndpointRemove(endpoint string) (r []*Endpoint)
+//@   requires nonnil: t != nil && forall(i, 0, len(t.Endpoints), t.Endpoints[i] != nil)
+//@   modifies t.Endpoints, elems(t.Endpoints)
